@@ -520,3 +520,176 @@ Proof.
       split; [vm_compute; auto|]. split; [vm_compute; reflexivity|]. split; [vm_compute; reflexivity|].
       eexists. split; vm_compute; reflexivity.
 Qed.
+
+(** ---- non-vacuity of the hypotheses (audit) ---- *)
+(** [C12_newest_distance_unit_free]: unit 2^-10, two summaries *)
+Example C12_newest_distance_unit_free_nonvacuous :
+  let c := 1 # 1024 in let var := [14 # 3; 200 # 3] in let u := [1; 10] in let o := [2; 30] in
+  ~ c == 0 /\ length var = length u /\ length o = length u
+  /\ dist2 (Some var) u o = 87 # 14
+  /\ dist2 (Some (map (fun v => c * c * v) var)) (map (Qmult c) u) (map (Qmult c) o) == 87 # 14.
+Proof.
+  cbv zeta. split; [intro HH; vm_compute in HH; discriminate HH|].
+  repeat split; vm_compute; reflexivity.
+Qed.
+
+(** [C12_earlier_columns_unchanged]: two functions (plain, weights 3/20 and 1), two rows *)
+Example C12_earlier_columns_unchanged_nonvacuous :
+  nested_distance weuclid2 [None; Some [3 # 20; 1]] [[1; 0]; [2; 2]] [[3; 1]]
+  = Some (R2 2 [[5; 8 # 5]; [2; 23 # 20]]).
+Proof. vm_compute; reflexivity. Qed.
+
+(** sampler rounds: the six rows of [C12_example_sampler_round] as 3 batches of 2 (two masks) and as
+    2 batches of 3; a second round with other rows.  Hypotheses of
+    [C12_sampler_round_ignores_acceptance], [C12_sampler_round_ignores_batching],
+    [C12_sampler_rounds_all_rows], [C12_round_script_is_sampler_round] *)
+Definition C12_nv_round_a : list sbatch :=
+  [ {| sb_data := [[1;0];[2;2]]; sb_accept := [true; false] |};
+    {| sb_data := [[3;0];[4;2]]; sb_accept := [false; false] |};
+    {| sb_data := [[5;0];[9;2]]; sb_accept := [true; false] |} ].
+Definition C12_nv_round_a' : list sbatch :=
+  [ {| sb_data := [[1;0];[2;2]]; sb_accept := [true; true] |};
+    {| sb_data := [[3;0];[4;2]]; sb_accept := [true; true] |};
+    {| sb_data := [[5;0];[9;2]]; sb_accept := [false; true] |} ].
+Definition C12_nv_round_b : list sbatch :=
+  [ {| sb_data := [[1;0];[2;2];[3;0]]; sb_accept := [false; false; false] |};
+    {| sb_data := [[4;2];[5;0];[9;2]]; sb_accept := [true; true; true] |} ].
+Definition C12_nv_round_c : list sbatch :=
+  [ {| sb_data := [[1;1]]; sb_accept := [true] |}; {| sb_data := [[3;7];[5;4]]; sb_accept := [false; true] |} ].
+
+Example C12_sampler_rounds_nonvacuous :
+  map sb_data C12_nv_round_a = map sb_data C12_nv_round_a' /\ C12_nv_round_a <> C12_nv_round_a'
+  /\ round_wf 2 C12_nv_round_a /\ round_wf 2 C12_nv_round_b
+  /\ round_rows C12_nv_round_a = round_rows C12_nv_round_b
+  /\ Forall (round_wf 2) [C12_nv_round_a; C12_nv_round_c]
+  /\ (exists a2, rejection_rounds astate0 [C12_nv_round_a; C12_nv_round_c] = Some a2
+                 /\ a_funcs a2 = [None; Some [3 # 20; 1]; Some [3 # 8; 1 # 6]]).
+Proof.
+  assert (Ha : round_wf 2 C12_nv_round_a)
+    by (split; [discriminate|]; repeat (apply Forall_cons; [split; [discriminate|reflexivity]|]); apply Forall_nil).
+  assert (Hb : round_wf 2 C12_nv_round_b)
+    by (split; [discriminate|]; repeat (apply Forall_cons; [split; [discriminate|reflexivity]|]); apply Forall_nil).
+  assert (Hc : round_wf 2 C12_nv_round_c)
+    by (split; [discriminate|]; repeat (apply Forall_cons; [split; [discriminate|reflexivity]|]); apply Forall_nil).
+  split; [reflexivity|]. split; [discriminate|]. split; [exact Ha|]. split; [exact Hb|].
+  split; [reflexivity|].
+  split; [apply Forall_cons; [exact Ha|]; apply Forall_cons; [exact Hc|]; apply Forall_nil|].
+  eexists. split; vm_compute; reflexivity.
+Qed.
+
+Example C12_round_script_nonvacuous :
+  let bs := [([A1 [1; 2]; A1 [0; 2]], [true; false]); ([A2 [[3; 0]; [4; 2]]], [false; false]);
+             ([A1 [5; 9]; A2 [[0]; [2]]], [true; false])] in
+  Forall2 (fun b s => column_stack (fst b) = Some (sb_data s) /\ snd b = sb_accept s) bs C12_nv_round_a
+  /\ (exists a2, rejection_round astate0 C12_nv_round_a = Some a2
+                 /\ exec [A0 0; A0 0] astate0 (round_script bs) = a2).
+Proof.
+  cbv zeta. split.
+  - repeat (apply Forall2_cons; [split; [vm_compute; reflexivity | reflexivity]|]); apply Forall2_nil.
+  - eexists. split; vm_compute; reflexivity.
+Qed.
+
+(** [C12_ok_sound]: the inputs of [C12_example_distance] under a weighted Minkowski metric (the weight
+    vector has the stacked width 3, so [kw_ok] is a real condition); a wrong value is refused *)
+Example C12_ok_sound_nonvacuous :
+  let c := {| d_kind := MMink 1 (Some [1; 2; 1]); d_summaries := [A1 [1; 2]; A2 [[1; 2]; [3; 4]]];
+              d_observed := [A0 (1 # 2); A2 [[3; 5 # 2]]]; d_callable := 0; d_impl := Some (D1 [5; 3]) |} in
+  d_ok c = true /\ well_shaped 2 (d_summaries c) (d_observed c) = true
+  /\ kw_ok (d_kind c) (length (orow (d_observed c))) = true
+  /\ d_ok {| d_kind := d_kind c; d_summaries := d_summaries c; d_observed := d_observed c; d_callable := 0;
+             d_impl := Some (D1 [5; 4]) |} = false.
+Proof. cbv zeta. repeat split; vm_compute; reflexivity. Qed.
+
+(** [C12_ok_add_sound], [C12_ok_update_sound], [C12_model_ok]: two batches of one row, variances 1 and
+    100 (rational square roots 1 and 10) *)
+Example C12_ok_add_update_nonvacuous :
+  ok_add [[1; 10]; [3; 30]] 2 [2; 20] [2; 200] [1; 10] = true
+  /\ ok_add [[1; 10]; [3; 30]] 2 [2; 20] [2; 200] [1; 11] = false
+  /\ ok_update [1; 100] [1; 1 # 10] = true /\ ok_update [1; 100] [1; 1 # 100] = false.
+Proof. repeat split; vm_compute; reflexivity. Qed.
+
+Example C12_model_ok_nonvacuous :
+  let bs := [[[1; 10]]; [[3; 30]]] in let scale := [1; 10] in
+  bs <> [] /\ Forall (fun b => b <> [] /\ width b = 2%nat) bs /\ length scale = 2%nat
+  /\ (forall j, (j < 2)%nat -> 0 <= nth j scale (-(1))
+                               /\ nth j scale (-(1)) * nth j scale (-(1))
+                                  == nth j (scale2_of (fold_left add_data bs store0)) 0).
+Proof.
+  cbv zeta. split; [discriminate|].
+  split; [repeat (apply Forall_cons; [split; [discriminate|reflexivity]|]); apply Forall_nil|].
+  split; [reflexivity|].
+  intros j Hj. destruct j as [|[|j]].
+  - split; [apply Qle_bool_imp_le; reflexivity | vm_compute; reflexivity].
+  - split; [apply Qle_bool_imp_le; reflexivity | vm_compute; reflexivity].
+  - apply Nat.ltb_lt in Hj. simpl in Hj. discriminate Hj.
+Qed.
+
+(** link with C01: the draws of [C12_example_C01_link]; hypotheses of
+    [C12_round_sees_all_rows_of_C01_batches], [C12_round_ignores_C01_threshold_and_batching],
+    [C12_C01_runs_same_draws_same_round], [C12_C01_rows_by_code], [C12_C01_history_rounds_see_all_rows] *)
+Definition C12_nv_srow (k : N) : list Q := [inject_Z (Z.of_N k); inject_Z (2 * ((Z.of_N k + 1) mod 2))].
+Definition C12_nv_summ (d : draw) : list Q := C12_nv_srow (d_code d).
+Definition C12_nv_dr (z : Z) (k : N) : draw := {| d_disc := Fin z; d_code := k |}.
+Definition C12_nv_bs1 : list (list draw) :=
+  [[C12_nv_dr 5 1; C12_nv_dr 1 2]; [C12_nv_dr 7 3; C12_nv_dr 9 4]; [C12_nv_dr 2 5; C12_nv_dr 8 6]].
+Definition C12_nv_bs2 : list (list draw) :=
+  [[C12_nv_dr 5 1; C12_nv_dr 1 2; C12_nv_dr 7 3]; [C12_nv_dr 9 4; C12_nv_dr 2 5; C12_nv_dr 8 6]].
+Definition C12_nv_c1 : Reject.case :=
+  {| c_n := 2; c_b := 2; c_form := ByNsim 6; c_table := C12_nv_bs1; c_rows := []; c_threshold := PInf;
+     c_n_sim := 0; c_n_batches := 0 |}.
+Definition C12_nv_c2 : Reject.case :=
+  {| c_n := 1; c_b := 3; c_form := ByNsim 6; c_table := C12_nv_bs2; c_rows := []; c_threshold := PInf;
+     c_n_sim := 0; c_n_batches := 0 |}.
+
+Example C12_link_batches_nonvacuous :
+  let s1 := rinit 2 2 (Some (Fin 3)) 3 in let s2 := rinit 1 3 None 2 in
+  (0 < r_b s1)%nat /\ (0 < r_b s2)%nat /\ C12_nv_bs1 <> [] /\ C12_nv_bs2 <> []
+  /\ batches_wf C12_nv_summ 2 (r_b s1) C12_nv_bs1 /\ batches_wf C12_nv_summ 2 (r_b s2) C12_nv_bs2
+  /\ map C12_nv_summ (concat C12_nv_bs1) = map C12_nv_summ (concat C12_nv_bs2)
+  /\ (forall d, C12_nv_summ d = C12_nv_srow (d_code d))
+  /\ map d_code [C12_nv_dr 5 1; C12_nv_dr 1 2] = map d_code [C12_nv_dr 0 1; C12_nv_dr 9 2]
+  /\ [C12_nv_dr 5 1; C12_nv_dr 1 2] <> [C12_nv_dr 0 1; C12_nv_dr 9 2].
+Proof.
+  cbv zeta. split; [vm_compute; repeat constructor|]. split; [vm_compute; repeat constructor|].
+  split; [discriminate|]. split; [discriminate|].
+  split; [repeat (apply Forall_cons; [split; [reflexivity | repeat (apply Forall_cons; [reflexivity|]); apply Forall_nil]|]);
+          apply Forall_nil|].
+  split; [repeat (apply Forall_cons; [split; [reflexivity | repeat (apply Forall_cons; [reflexivity|]); apply Forall_nil]|]);
+          apply Forall_nil|].
+  split; [reflexivity|]. split; [intro d; reflexivity|]. split; [reflexivity | discriminate].
+Qed.
+
+Example C12_link_runs_nonvacuous :
+  exists s1 s2,
+    run_wf C12_nv_summ 2 C12_nv_c1 /\ run_wf C12_nv_summ 2 C12_nv_c2
+    /\ run_on None C12_nv_c1 = Some s1 /\ run_on None C12_nv_c2 = Some s2
+    /\ run_finished C12_nv_c1 (Reject.extract s1) /\ run_finished C12_nv_c2 (Reject.extract s2)
+    /\ map C12_nv_summ (concat (consumed_batches C12_nv_c1 (Reject.extract s1)))
+       = map C12_nv_summ (concat (consumed_batches C12_nv_c2 (Reject.extract s2)))
+    /\ res_rows (Reject.extract s1) <> res_rows (Reject.extract s2).
+Proof.
+  destruct C12_link_batches_nonvacuous as (_ & _ & _ & _ & W1 & W2 & _).
+  eexists. eexists.
+  split; [split; [vm_compute; repeat constructor | exact W1]|].
+  split; [split; [vm_compute; repeat constructor | exact W2]|].
+  split; [vm_compute; reflexivity|]. split; [vm_compute; reflexivity|].
+  split; [vm_compute; auto|]. split; [vm_compute; auto|].
+  split; [vm_compute; reflexivity | vm_compute; discriminate].
+Qed.
+
+(** two consecutive runs on one Rejection instance (the second with another batch size and sample count) *)
+Example C12_link_history_nonvacuous :
+  exists ress,
+    Forall (run_wf C12_nv_summ 2) [C12_nv_c1; C12_nv_c2]
+    /\ history_results None [C12_nv_c1; C12_nv_c2] = map Some ress
+    /\ Forall2 run_finished [C12_nv_c1; C12_nv_c2] ress
+    /\ map res_n_sim ress = [6; 6]%nat.
+Proof.
+  destruct C12_link_batches_nonvacuous as (_ & _ & _ & _ & W1 & W2 & _).
+  pose (r := history_results None [C12_nv_c1; C12_nv_c2]).
+  assert (E : history_results None [C12_nv_c1; C12_nv_c2] = r) by reflexivity. vm_compute in r.
+  match eval unfold r in r with [Some ?x; Some ?y] => exists [x; y] end.
+  split; [repeat (apply Forall_cons || apply Forall_nil); (split; [vm_compute; repeat constructor | assumption])|].
+  split; [exact E|].
+  split; [repeat (apply Forall2_cons; [vm_compute; auto|]); apply Forall2_nil | vm_compute; reflexivity].
+Qed.
